@@ -25,9 +25,10 @@ typedef std::vector<int> Prog;
 struct Config {
 	std::vector<Prog> threads;
 	int nInitial = 3;      // callbacks registered before the threads start (0: the list starts empty)
+	int firstId = 0;       // the initial callbacks are firstId .. firstId+nInitial-1 (1: the list is [1,2] or [1], so that remove(h1)/remove(h2) EMPTY it)
 	int wrapAt = 0;        // k > 0: the generation counter is placed so that the k-th addition made by the threads wraps it
 	std::string name() const {
-		std::string s = nInitial == 0 ? "(empty list) " : "";
+		std::string s = nInitial == 0 ? "(empty list) " : firstId ? fmt("(list of %d) ", nInitial) : "";
 		if(wrapAt) s += fmt("(counter wraps at addition %d) ", wrapAt);
 		for(size_t t = 0; t < threads.size(); ++t) {
 			s += fmt("%sT%zu[", t ? " || " : "", t + 1);
@@ -218,7 +219,7 @@ struct Run {
 	}
 	bool permute(std::vector<int> & order, std::vector<char> & used, const std::vector<int> & idx, std::string & why) {
 		if(order.size() == idx.size()) {
-			Model m; for(int i = 0; i < nInitial; ++i) m.l[0].push_back(Model::N{i, true});
+			Model m; for(int i = 0; i < nInitial; ++i) m.l[0].push_back(Model::N{cfg.firstId + i, true});
 			for(int k : order) {
 				int r = m.apply(ops[k]);
 				if(r != ops[k].result) return false;
@@ -254,7 +255,7 @@ struct Run {
 			std::set<int> seen;
 			for(int id : o.visited) if(!seen.insert(id).second) ctx.fail("visited-twice", fmt("%s on thread %d visited callback #%d twice", kindName(o.kind), o.thread, id));
 			std::vector<int> must;
-			if(li == 0) for(int i = 0; i < nInitial; ++i) must.push_back(i);
+			if(li == 0) for(int i = 0; i < nInitial; ++i) must.push_back(cfg.firstId + i);
 			for(auto & a : ops) if(isAdd(a.kind) && ((a.kind == APPEND_E2) == (li == 1)) && a.end < o.start) must.push_back(a.newId);
 			for(int id : must) {
 				bool removedPossibly = false;
@@ -279,7 +280,7 @@ struct Run {
 		s.begin();
 		bool aborted = false;
 		// op records, ids
-		int nextId = nInitial;
+		int nextId = cfg.firstId + nInitial;
 		for(size_t th = 0; th < cfg.threads.size(); ++th) for(int k : cfg.threads[th]) {
 			OpRec o; o.thread = (int)th + 1; o.kind = k; o.newId = isAdd(k) ? nextId++ : -1; o.start = o.end = -1; o.result = -1;
 			ops.push_back(o);
@@ -290,7 +291,7 @@ struct Run {
 			target.share();
 			if(stateful) { s.stateHash = [this](uint64_t & a, uint64_t & b) { stateHash(a, b); }; s.sharedHash = [this]() { return sharedHash(); }; }
 			try {
-				for(int i = 0; i < nInitial; ++i) handles[i] = target.append(0, Cb{this, i});
+				for(int i = 0; i < nInitial; ++i) handles[cfg.firstId + i] = target.append(0, Cb{this, cfg.firstId + i});
 				// a reachable state: the same list after 2^32 - wrapAt - nInitial further add/remove pairs
 				if(cfg.wrapAt > 0) { HarnessScope hs; target.presetCounter(0xFFFFFFFFu - (unsigned)(cfg.wrapAt - 1)); }
 				size_t base = 0;
@@ -418,6 +419,16 @@ static std::vector<Config> gen(int tier, bool disp, int wrap = 0) {
 		for(int a : ea) for(int b : ea) if(a <= b && (isAdd(a) || isAdd(b))) { Config c; c.nInitial = 0; c.threads = {{a}, {b}}; v.push_back(c); }
 		for(int x : ea) { Config c; c.nInitial = 0; c.threads = {{PREPEND}, {APPEND}, {x}}; v.push_back(c); }
 		{ Config c; c.nInitial = 0; c.threads = {{PREPEND, APPEND}, {APPEND, INVOKE}}; v.push_back(c); }
+	}
+	// lists that the removals EMPTY while other threads traverse, query and add ([1] emptied by remove(h1), [1,2] by both removals):
+	// whatever a container does with an event's list once it has no listener left must not disturb the calls in flight
+	{
+		std::vector<int> xs = {APPEND, PREPEND, INSERT_H1, OWNS_H1, EMPTY, INVOKE, FOREACH, REMOVE_H1};
+		if(disp) { xs.push_back(APPEND_E2); xs.push_back(DISPATCH_E2); }
+		for(int x : xs) { Config c; c.firstId = 1; c.nInitial = 1; c.threads = {{REMOVE_H1}, {x}}; v.push_back(c); }
+		for(int x : xs) { Config c; c.firstId = 1; c.nInitial = 2; c.threads = {{REMOVE_H1}, {REMOVE_H2}, {x}}; v.push_back(c); }
+		for(int x : {INVOKE, FOREACH, APPEND}) { Config c; c.firstId = 1; c.nInitial = 1; c.threads = {{REMOVE_H1, APPEND}, {x, EMPTY}}; v.push_back(c); }
+		for(int x : {INVOKE, FOREACH}) { Config c; c.firstId = 1; c.nInitial = 1; c.threads = {{x}, {REMOVE_H1}, {APPEND}}; v.push_back(c); }
 	}
 	// 3 threads x 1 op: triples containing a traversal or two operations on h1
 	for(int a : alpha) for(int b : alpha) for(int c3 : alpha) {
